@@ -137,7 +137,7 @@ PROPS['C04'] = {
     'parts': [engine_part('caller-panic-enumeration', 'e_fault', 'C04', shards_quick=4, asan='thorough')],
     'rule': ("for every operation x receiver/argument form (generate x4 + default x2; map x4; fold x4; zip 9 stack forms + boxed; Clone of array, Box and of the by-value iterator from every (origin, front, back); "
              "iterator fold/rfold/for_each/map-collect from every position; try_from_iter/from_iter/try_boxed_from_iter/boxed from_iter from a scripted source of c in {0,N-1,N,N+1,N+2} items with exact/absent hints, and from real "
-             "into_iter().map chains; ArrayBuilder/IntrusiveArrayBuilder/ArrayConsumer dropped at every position and fed by extend) x N in {0..6,9,17} (thorough: +7,8,16,33; iterator positions N<=6, thorough N<=8,16) x element-type "
+             "into_iter().map chains; ArrayBuilder/IntrusiveArrayBuilder/ArrayConsumer dropped at every position and fed by extend) x N in {0..9,16,17,33} (iterator positions N<=8 and 16) x element-type "
              "combinations over {4-byte tracked, 24-byte tracked, zero-sized tracked, plain u32} selecting the needs_drop branches: one fault-free run counts the fault points c, then one execution per k in 0..c with call k panicking. "
              "A case is one (operation, form, N, types, k); non-trivial = the fault fired and at least one element existed. Oracle: the injected payload propagates, nothing is returned, borrowed sources are intact and live, and after dropping "
              "the survivors every tracked id has exactly one drop, none observed after drop; zero-sized totals balance."),
@@ -153,10 +153,10 @@ PROPS['C05'] = {
     'level': 'fault_enumeration',
     'technique': 'exhaustive single-fault enumeration: for every internally-dropping operation from every iterator position, every choice of the one element whose destructor panics, on the real code; the run continues after the caught panic and a drop ledger is judged',
     'parts': [engine_part('destructor-panic-enumeration', 'e_fault', 'C05', shards_quick=4, asan='thorough'), engine_part('serde-teardown', 'e_misc', 'C05', shards_quick=1)],
-    'rule': ("for every (origin fresh|clone, front f, back b) of the by-value iterator with N in 0..=6 (thorough: 7, 8 complete and 16 on the position lattice) x operation in {nth(n), nth_back(n) for n in 0..=len+1, count, last, drop, "
+    'rule': ("for every (origin fresh|clone, front f, back b) of the by-value iterator with N in 0..=8 complete and 16 on the position lattice x operation in {nth(n), nth_back(n) for n in 0..=len+1, count, last, drop, "
              "fold/rfold/for_each with a dropping closure, clone-then-drop, collect-then-drop}; dropping a GenericArray / Box / fresh iterator / boxed into_iter; ArrayBuilder, IntrusiveArrayBuilder and ArrayConsumer dropped at every position; the "
              "error paths of try_from_iter, from_iter, try_boxed_from_iter, boxed from_iter, TryFrom<Vec>, try_from_vec, try_from_boxed_slice, TryFrom<Box<[T]>> for c in {0,1,N-1,N,N+1,N+2}; map/zip/fold (owned and boxed) with closures that drop "
-             "their arguments, N in {0..6,9,17} (thorough +7,8,16,33); the deserialisation error paths (scripted source offering c in 0..=N+2 elements, an element error at every index, N in {0..6,8,16}); a fault-free run lists the elements destroyed after the arming point, then one execution per such element with its destructor panicking once (never while already panicking). "
+             "their arguments, N in {0..9,16,17,33}; the deserialisation error paths (scripted source offering c in 0..=N+2 elements, an element error at every index, N in {0..6,8,16}); a fault-free run lists the elements destroyed after the arming point, then one execution per such element with its destructor panicking once (never while already panicking). "
              "After the caught panic the views are observed, next/next_back called once more and everything dropped. A case is one (operation, position, N, element type, panicking element); non-trivial = the destructor panicked inside the operation. "
              "Oracle: no id dropped twice, none observed after its drop, zero-sized drops never exceed creations; leaks are counted, not flagged."),
     'exhaustive': True,
@@ -236,7 +236,7 @@ PROPS['C07'] = {
     'level': 'fault_enumeration',
     'technique': 'exhaustive enumeration of the environment of a collecting call: scripted source (item count x size-hint policy x fusedness x panic at every next() call) against all four collecting entry points on the real code',
     'parts': [engine_part('scripted-source', 'e_ops', 'C07', shards_quick=4)],
-    'rule': ("N in {0..5,8,16,33} (thorough +6,7,17,100) x produced item count c in 0..=N+3 x size-hint policy in {exact, absent, lower-only, upper-only, loose both, lying low (upper < c), lying high (lower > c), changing between calls} x "
+    'rule': ("N in {0..8,16,17,33,100} x produced item count c in 0..=N+3 x size-hint policy in {exact, absent, lower-only, upper-only, loose both, lying low (upper < c), lying high (lower > c), changing between calls} x "
              "fused / not fused (a non-fused source yields again if polled after its first None, and counts such polls) x entry point in {try_from_iter, from_iter, try_boxed_from_iter, boxed from_iter} x element in {tracked, zero-sized tracked, u32}; "
              "for each, the fault-free run and one run per next() call index with that call panicking (all policies for N<=5, exact/absent/lying-high otherwise). Oracle: Ok implies c == N and element i is the i-th produced item; c == N with a truthful "
              "hint implies Ok; otherwise LengthError or the 'expected N items' panic; at most N+1 next() calls; zero polls after the source returned None; every produced item dropped exactly once; an injected source panic propagates. "
